@@ -211,7 +211,9 @@ func runHistories(t *testing.T, cfg historyCfg) {
 				if known[cl.Sig] {
 					st.KnownHit(cl.Sig)
 					st.AddExtra("excluded_known", 1)
-					cut = true
+					if !cl.NoCut {
+						cut = true
+					}
 					continue
 				}
 				failRapid(rt, st, cfg.prop, "history", Trace{Spec: spec, Ops: e.Ops}, cl.Sig, cl.Msg)
